@@ -634,16 +634,8 @@ def generator_exit_outcomes(R, ro, hier, rule):
           if h.type is not None and "GeneratorExit" in [x.split(".")[-1] for x in q.names_loaded(h.type) | {q.src(h.type)}]]
     R.need(hs, "idiom: %s has no handler for GeneratorExit" % driver.qualname)
     subs = [c for c in R.repo.all_classes() if "GeneratorExit" in c.ext_bases()]
-    carriers = set()
-    for h in hs:
-        # the result carrier: the class under whose test the handler reads <error>.result
-        for t in ast.walk(h):
-            if isinstance(t, ast.If):
-                k_, s_, pos_ = q.atom_test(t.test)
-                if any(isinstance(x, ast.Attribute) and x.attr in ("result", "value") and isinstance(x.value, ast.Name) and x.value.id == h.name for b in t.body for x in ast.walk(b)):
-                    for c in subs:
-                        if c.name in q.src(t.test):
-                            carriers.add(c.name)
+    # the result carrier: the subclass that stores the value handed to result() on itself
+    carriers = set(c.name for c in subs if any(recv == "self" and attr in ("result", "value") for m_ in c.methods.values() for recv, attr, nd_ in q.attr_stores(m_.node)))
     n = 0
     for c in subs:
         if c.name in carriers:
